@@ -64,6 +64,9 @@ def gen_case(r, allow_sensitive: bool):
     return {"files": files, "allowed": pats(True), "forbidden": pats(True), "deprecated_name": r.random() < 0.2}
 
 
+_CASE_NO = [0]
+
+
 def run_case(case: dict, defaults: dict) -> Tuple[dict, dict, dict]:
     """Returns (impl observation, driver request, oracle expectation)."""
     from django.core.exceptions import SuspiciousFileOperation
@@ -71,7 +74,12 @@ def run_case(case: dict, defaults: dict) -> Tuple[dict, dict, dict]:
 
     from django_components.finders import ComponentsFileSystemFinder
 
-    base = tempfile.mkdtemp(prefix="djc_c17_")
+    # a directory whose absolute path holds no random letters: find() tests the patterns against the *absolute* path
+    # (known finding), so a random "…min…" in a mkdtemp name would make an unrelated case hit that finding by chance
+    _CASE_NO[0] += 1
+    base = os.path.join(tempfile.gettempdir(), "djc_c17_%d_%d" % (os.getpid(), _CASE_NO[0]))
+    shutil.rmtree(base, ignore_errors=True)
+    os.makedirs(base)
     try:
         base = os.path.realpath(base)
         root = os.path.join(base, "components")
@@ -150,7 +158,10 @@ def run_case(case: dict, defaults: dict) -> Tuple[dict, dict, dict]:
             else:
                 exp_find.append(None)
         oracle = {"find": exp_find, "list": sorted(f for f in case["files"] if exposed(f))}
-        meta = {"queries": [q.replace(base, "<base>") for q in queries], "root_len": len(root_comps)}
+        # does some pattern judge a file differently on its absolute path (what find() tests) and on its path relative to
+        # the component directory (what list() tests)?  = complement of Djc.Props.C17.PrefixBlind on this case
+        blind = all(matches(p_, os.path.join(root, f)) == matches(p_, f) for p_ in allowed + forbidden for f in case["files"])
+        meta = {"queries": [q.replace(base, "<base>") for q in queries], "root_len": len(root_comps), "prefix_blind": blind}
         return impl, req, dict(oracle, meta=meta)
     finally:
         shutil.rmtree(base, ignore_errors=True)
@@ -212,7 +223,7 @@ def run(tier: str) -> int:
         obs = {"find": impl["find"], "list": impl["list"]}
         exp = {"find": oracle["find"], "list": oracle["list"]}
         if obs != exp:
-            if sensitive(case) and obs == model:
+            if (sensitive(case) or not oracle["meta"]["prefix_blind"]) and obs == model:
                 ch.known_hit("pattern-sees-absolute-path-in-find", {"case": shown, "impl": obs, "expected": exp})
                 continue
             ch.violation("impl-violates-spec", "tree", shown, impl=obs, model=model,
